@@ -523,6 +523,12 @@ func (c *container) SetResourceUpdates(r *nri.LinuxResources) bool {
 func mergeNRIResources(u *nri.LinuxResources, orig *nri.LinuxResources) *nri.LinuxResources {
 	log.Debug("merging resource update %+v with fallback/orig %+v", u, orig)
 
+	if u == nil {
+		u = &nri.LinuxResources{}
+	}
+	if orig == nil {
+		orig = &nri.LinuxResources{}
+	}
 	if u.Cpu == nil {
 		u.Cpu = &nri.LinuxCPU{}
 	}
